@@ -1,4 +1,111 @@
-//! End-to-end arm through lance::Dataset (filled in below).
-use hxlib::util::{Args, Sink};
+//! End-to-end arm through the public API (oracle only, brute-force expectations):
+//!  * Dataset::write with random batch boundaries and max_rows_per_file / max_rows_per_group:
+//!    fragment row counts must be the exact cut (break_stream in 2.x, chunk_stream in legacy) and an
+//!    ordered scan must return the input rows;
+//!  * scan with strict_batch_size: every batch but the last has exactly batch_size rows (StrictBatchSizeStream);
+//!  * merge_insert of a multi-batch source with conflict retries on: the source travels through the
+//!    replay spill (SpillStreamIter) - the table must contain every source row exactly once.
+use crate::common::*;
+use arrow_array::{RecordBatch, RecordBatchIterator};
+use futures::TryStreamExt;
+use hxlib::util::{Args, Rng, Sink};
+use lance::dataset::{MergeInsertBuilder, WhenMatched, WhenNotMatched, WriteParams};
+use lance::Dataset;
+use lance_encoding::version::LanceFileVersion;
+use serde_json::json;
+use std::sync::Arc;
 
-pub fn run(_args: &Args, _sink: &mut Sink, _rt: &tokio::runtime::Runtime) {}
+fn gen_batches(rng: &mut Rng, start: i32, nb: usize, max_len: u64) -> Vec<RecordBatch> {
+    let mut next = start;
+    (0..nb)
+        .map(|_| {
+            let len = if rng.chance(1, 8) { 0 } else { rng.range(1, max_len) as usize };
+            let b = gen_batch(rng, next, len);
+            next += len as i32;
+            b
+        })
+        .collect()
+}
+
+async fn scan_all(ds: &Dataset) -> Vec<RecordBatch> {
+    ds.scan().try_into_stream().await.unwrap().try_collect::<Vec<_>>().await.unwrap()
+}
+
+pub fn run(args: &Args, sink: &mut Sink, rt: &tokio::runtime::Runtime) {
+    let mut rng = Rng::new(args.seed ^ 0xE2E41);
+    let dir = tempfile::tempdir().unwrap();
+    let ncases = args.vol(14, 150);
+    for ci in 0..ncases {
+        let nb = rng.range(1, 7) as usize;
+        let batches = gen_batches(&mut rng, 0, nb, 60);
+        let total: usize = batches.iter().map(|b| b.num_rows()).sum();
+        if total == 0 {
+            continue;
+        }
+        let version = *rng.pick(&[LanceFileVersion::Legacy, LanceFileVersion::V2_0, LanceFileVersion::V2_1]);
+        let m = rng.range(1, 50) as usize; // max_rows_per_file
+        let g = rng.range(1, 20) as usize; // max_rows_per_group (legacy only)
+        let uri = dir.path().join(format!("t{ci}")).to_string_lossy().to_string();
+        let hj = json!({"sizes": batches.iter().map(|b| b.num_rows()).collect::<Vec<_>>(), "max_rows_per_file": m, "max_rows_per_group": g, "version": format!("{version:?}")});
+        let params = WriteParams { max_rows_per_file: m, max_rows_per_group: g, data_storage_version: Some(version), ..Default::default() };
+        let reader = RecordBatchIterator::new(batches.clone().into_iter().map(Ok), schema());
+        let res: Result<(), String> = rt.block_on(async {
+            let ds = Dataset::write(reader, &uri, Some(params)).await.map_err(|e| format!("write failed: {e}"))?;
+            // ---- fragment sizes: exact cut
+            let frags: Vec<usize> = ds.fragments().iter().map(|f| f.physical_rows.unwrap_or(0)).collect();
+            let per = if version == LanceFileVersion::Legacy { m.div_ceil(g) * g } else { m };
+            let mut expect = vec![per; total / per];
+            if total % per != 0 {
+                expect.push(total % per);
+            }
+            if frags != expect {
+                return Err(format!("fragment row counts {frags:?}, expected {expect:?}"));
+            }
+            // ---- ordered scan returns the input
+            let got = scan_all(&ds).await;
+            if !same_rows(&got, &batches) {
+                return Err("ordered scan differs from the rows written".into());
+            }
+            // ---- strict batch size
+            let bs = rng.range(1, 40) as usize;
+            let mut sc = ds.scan();
+            sc.batch_size(bs).strict_batch_size(true);
+            let got: Vec<RecordBatch> = sc.try_into_stream().await.map_err(|e| e.to_string())?.try_collect().await.map_err(|e| e.to_string())?;
+            if !same_rows(&got, &batches) {
+                return Err(format!("strict_batch_size({bs}) scan differs from the rows written"));
+            }
+            for (k, b) in got.iter().enumerate() {
+                if b.num_rows() == 0 || b.num_rows() > bs || (k + 1 < got.len() && b.num_rows() != bs) {
+                    return Err(format!("strict_batch_size({bs}): batch sizes {:?}", got.iter().map(|b| b.num_rows()).collect::<Vec<_>>()));
+                }
+            }
+            // ---- merge_insert with retries: the source is replayed from a spill
+            let nsrc = rng.range(2, 6) as usize;
+            let src = gen_batches(&mut rng, total as i32 + 10, nsrc, 30);
+            let mut mb = MergeInsertBuilder::try_new(Arc::new(ds), vec!["id".to_string()]).map_err(|e| e.to_string())?;
+            mb.when_matched(WhenMatched::DoNothing).when_not_matched(WhenNotMatched::InsertAll).conflict_retries(3);
+            let job = mb.try_build().map_err(|e| e.to_string())?;
+            let rdr = RecordBatchIterator::new(src.clone().into_iter().map(Ok), schema());
+            let (ds2, stats) = job.execute_reader(Box::new(rdr)).await.map_err(|e| format!("merge_insert failed: {e}"))?;
+            let nsrc_rows: usize = src.iter().map(|b| b.num_rows()).sum();
+            if stats.num_inserted_rows as usize != nsrc_rows {
+                return Err(format!("merge_insert inserted {} rows, source has {nsrc_rows}", stats.num_inserted_rows));
+            }
+            let mut got_ids: Vec<i64> = scan_all(&ds2).await.iter().flat_map(ids).collect();
+            got_ids.sort();
+            let mut want: Vec<i64> = batches.iter().chain(src.iter()).flat_map(ids).collect();
+            want.sort();
+            if got_ids != want {
+                return Err("after merge_insert the table is not old rows + every source row exactly once".into());
+            }
+            Ok(())
+        });
+        sink.count("e2e:dataset-cases");
+        sink.count(match version { LanceFileVersion::Legacy => "e2e:legacy(chunk_stream)", _ => "e2e:v2(break_stream)" });
+        match res {
+            Ok(()) => sink.oracle_ok(),
+            Err(w) => sink.oracle_fail(None, &format!("e2e: {w}"), hj),
+        }
+    }
+    sink.notes.push(format!("e2e: {ncases} Dataset::write / ordered scan / strict_batch_size scan / merge_insert-through-spill cases (legacy, 2.0, 2.1)"));
+}
